@@ -78,6 +78,9 @@ RULE = (
     "split-point sets and fault positions of fixed small frames.  distinct by SHA-1 of the case"
     ' Part backend_deadline: the real asyncio backend socket wrappers over an in-memory transport under expired/zero/none/far deadlines (49 enumerated cases).'
 )
+RULE += (
+    " Rounds 9-10 added: frames of 32767..65535 octets; every udp case replayed through sync and async udp_with_fallback (scripted UDP socket + one-frame TCP socket)."
+)
 ASSUMPTIONS = [
     "vlib/ref/net_model.py + vlib/ref/wire.py (independent encoder/decoder/interpreter) are "
     "the trusted base; the scripted socket layer stands in for the OS (real sockets, "
